@@ -82,7 +82,7 @@ func (s *Seq) opAwait(op *Op) {
 		s.fail("async", "undecodable-file", "await: %v", err)
 	}
 	if len(p1) > 0 {
-		s.fail("async", "not-flushed:"+op.Mode, "no call was issued for %v of simulated time (%s), yet the accepted writes of lids %v are still not on disk", d, why, p1)
+		s.fail("async", "not-flushed:"+op.Mode, "no call was issued for %v of simulated time (%s), yet the accepted writes of lids %v are still not on disk [tasks: %s]", d, why, p1, s.W.TaskStates())
 	}
 	if op.Mode == "timeout" && msDur(s.smallTimeoutMs) <= timeout {
 		// every collection has its own flusher; the second collection keeps the
